@@ -99,6 +99,9 @@ type Exec struct {
 	Data        any // scenario state for this execution
 	policy      Policy
 	aborting    bool
+	wake     chan struct{}
+	// IdleWaits counts the times the scheduler had nothing to choose and let virtual time run.
+	IdleWaits int
 }
 
 // Policy selects the canonical order and the deviation cost.
@@ -145,6 +148,8 @@ type Options struct {
 	RootOwner bool
 	// SleepSets enables sleep-set reduction using Scenario.Independent (only sound with Bound < 0).
 	SleepSets bool
+	// IdleTimeout is the virtual time the scheduler waits, when nothing is enabled, before declaring a deadlock (default 2h).
+	IdleTimeout time.Duration
 	// LockPoints makes every vsync Lock/RLock of a registered goroutine a scheduling point (FINE).
 	LockPoints bool
 }
@@ -189,6 +194,7 @@ func (x *Exec) gate(ev Event, enabled func() bool) int {
 	x.arrivals++
 	x.pend = append(x.pend, p)
 	x.mu.Unlock()
+	x.signal()
 	return <-p.ch
 }
 
@@ -216,9 +222,17 @@ func (x *Exec) Go(name string, f func()) {
 			delete(x.gids, gid)
 			x.live--
 			x.mu.Unlock()
+			x.signal()
 		}()
 		f()
 	}()
+}
+
+func (x *Exec) signal() {
+	select {
+	case x.wake <- struct{}{}:
+	default:
+	}
 }
 
 // ProcOfCaller returns the registered name of the calling goroutine ("" if unregistered).
@@ -388,7 +402,11 @@ func runOne(t *testing.T, sc *Scenario, opt *Options, prefix []string) *Exec {
 	var x *Exec
 	synctest.Test(t, func(t *testing.T) {
 		ctx, cancel := context.WithCancel(context.Background())
-		x = &Exec{T: t, Ctx: ctx, cancel: cancel, gids: map[uint64]string{}, pcount: map[string]int{}, prefix: prefix, policy: opt.Policy}
+		x = &Exec{T: t, Ctx: ctx, cancel: cancel, gids: map[uint64]string{}, pcount: map[string]int{}, prefix: prefix, policy: opt.Policy, wake: make(chan struct{}, 1)}
+		idle := opt.IdleTimeout
+		if idle <= 0 {
+			idle = 2 * time.Hour
+		}
 		maxSteps := opt.MaxSteps
 		if maxSteps <= 0 {
 			maxSteps = 2000
@@ -415,6 +433,21 @@ func runOne(t *testing.T, sc *Scenario, opt *Options, prefix []string) *Exec {
 				break
 			}
 			if len(cs) == 0 {
+				// nothing to decide: every unfinished goroutine waits for a timer (virtual time) or for
+				// nothing at all.  Let virtual time run until something parks at a gate or a driver
+				// finishes; if that does not happen within the idle timeout it is a deadlock.
+				select {
+				case <-x.wake:
+				default:
+				}
+				x.IdleWaits++
+				tm := time.NewTimer(idle)
+				select {
+				case <-x.wake:
+					tm.Stop()
+					continue
+				case <-tm.C:
+				}
 				x.Deadlock = true
 				break
 			}
@@ -508,7 +541,7 @@ func Explore(t *testing.T, sc Scenario, opt Options, check func(x *Exec)) Stats 
 			break
 		}
 		var x *Exec
-		for try := 0; try < 3; try++ {
+		for try := 0; try < 6; try++ {
 			x = runOne(t, &sc, &opt, w.prefix)
 			if !x.Diverged {
 				break
